@@ -3879,10 +3879,19 @@ class BoutMesh(Mesh):
             # member
             chi.ylow = 2.0 * numpy.pi * self.zShift.ylow / self.ShiftAngle.centre
             # set to NaN in divertor leg regions where chi is not valid
+            # Note: the jyseps* indices do not include the y-boundary guard cells that
+            # are present in the arrays, so need to be offset by myg at the lower target
+            # and by 3*myg after the upper targets (as for theta above)
+            if jyseps2_1 != jyseps1_2:
+                upper_legs_offset = 3 * myg
+            else:
+                upper_legs_offset = myg
             for c in [chi.centre, chi.xlow, chi.ylow]:
-                c[:, : jyseps1_1 + 1] = float("nan")
-                c[:, jyseps2_1 + 1 : jyseps1_2 + 1] = float("nan")
-                c[:, jyseps2_2 + 1 :] = float("nan")
+                c[:, : jyseps1_1 + myg + 1] = float("nan")
+                c[:, jyseps2_1 + myg + 1 : jyseps1_2 + upper_legs_offset + 1] = float(
+                    "nan"
+                )
+                c[:, jyseps2_2 + upper_legs_offset + 1 :] = float("nan")
             chi.attributes["bout_type"] = "Field2D"
             self.writeArray("chi", chi, f)
 
